@@ -122,6 +122,16 @@ def _app_systems(spec, value):
     elif value == 'twice':
         spec.append(copy.deepcopy(SYS_B))
         a['children'] = ['sys_b', 'sys_b']
+    elif value == 'mixed_order':
+        # a child defined later listed BEFORE one defined earlier: the order of the list is content
+        b, c = copy.deepcopy(SYS_B), copy.deepcopy(SYS_C)
+        b['children'] = ['sys_c', a['name'], 'sys_c']
+        spec.extend([b, c])
+    elif value == 'reverse_order':
+        b, c = copy.deepcopy(SYS_B), copy.deepcopy(SYS_C)
+        a['children'] = ['sys_c', 'sys_b']
+        c['children'] = ['sys_b', a['name']]
+        spec.extend([b, c])
     elif value == 'child_other_case':
         spec.append(copy.deepcopy(SYS_B))
         a['children'] = ['SYS_B']
@@ -190,7 +200,7 @@ def build_features() -> list:
         + [[typ, True, ar[1]] for typ, (sc, ar) in VALUES.items()], _app_opopt, primary=0)
     for lst in OP_LISTS:
         add('ops_' + lst, [1, 2], _app_oplist(lst))
-    add('systems', ['none', 'two', 'child_ab', 'child_ba', 'mutual', 'self', 'chain3', 'twice', 'child_other_case'],
+    add('systems', ['none', 'two', 'child_ab', 'child_ba', 'mutual', 'self', 'chain3', 'twice', 'child_other_case', 'mixed_order', 'reverse_order'],
         _app_systems)
     add('sys_name', ['', 'A b'] + STRS[2:], _app_sys_name)
     add('opt_name', NAMES, _app_opt_name)
